@@ -103,8 +103,7 @@ text = f'''## 12. Which checks catch which changes
 Eleven rounds (a-k) of sub-agents were each given only the text of one property and a scratch
 worktree and asked for a change that breaks it while the pinned suite keeps passing (rounds d-k
 with the guidance texts `tools/seed_guidance_*.txt`; round k: violations that depend on history,
-state kept between calls and aliasing; its C01 change was discarded because it makes a pinned
-test fail, although C01's check reports it; round b
+state kept between calls and aliasing; round b
 with the hint to avoid the obvious one-liners; round c steered towards concurrency, failures
 at a particular point, process-level state and option interplay for the pipeline properties,
 and towards argument forms, extreme values and state kept between calls for the function-level
